@@ -5,12 +5,14 @@
 #include <stdint.h>
 /* generated (gen.py) */
 uint64_t w_get(uint64_t fmt, uint64_t fld, uint64_t path, uint8_t* pdu);
+uint64_t w_get2(uint64_t fmt, uint64_t fld, uint64_t path, uint8_t* pdu, uint64_t byteidx, uint64_t xorv, uint8_t* out8);
 void     w_set(uint64_t fmt, uint64_t fld, uint64_t path, uint8_t* pdu, uint64_t v);
 uint64_t w_getid(uint64_t fmt, uint8_t* pdu, uint64_t id);
 void     w_setid(uint64_t fmt, uint8_t* pdu, uint64_t id, uint64_t v);
 void     w_init(uint64_t fmt, uint8_t* pdu);
 uint64_t w_linit(uint64_t fmt, uint8_t* pdu, uint64_t arg);
 uint64_t w_lget(uint64_t fmt, uint8_t* pdu, uint64_t id, uint64_t nullval, uint8_t* out8);
+uint64_t w_lget_at(uint64_t fmt, uint8_t* pdu, uint64_t id, uint8_t* resultloc);
 uint64_t w_lset(uint64_t fmt, uint8_t* pdu, uint64_t id, uint64_t v);
 uint64_t w_fact(uint64_t fmt, uint64_t k, uint8_t* pdu);
 uint64_t w_enumv(uint64_t fmt, uint64_t fld);
@@ -19,6 +21,7 @@ uint64_t w_lstruct(uint64_t k, uint64_t what);
 /* hand written (wrap_generic.c) */
 uint64_t w_gget(uint64_t q, uint64_t off, uint64_t bits, uint8_t* pdu);
 void     w_gset(uint64_t q, uint64_t off, uint64_t bits, uint8_t* pdu, uint64_t v);
+uint64_t w_gget2(uint64_t q, uint64_t off, uint64_t bits, uint8_t* pdu, uint64_t byteidx, uint64_t xorv, uint8_t* out8);
 uint64_t w_gget_raw(uint64_t nulltable, uint64_t numFields, uint8_t* pdu, uint64_t field);
 void     w_gset_raw(uint64_t nulltable, uint64_t numFields, uint8_t* pdu, uint64_t field, uint64_t v);
 uint64_t w_bo(uint64_t helper, uint64_t x, uint8_t* image);
